@@ -256,7 +256,7 @@ def pc_cases(tier, seed):
         sh3 = gen.shuffle_rows(r, rows3)
         for q in range(4):
             k = (4 * it + q) % (len(RT_CLASSES) * len(RT_RELAX))
-            cls, rel = RT_CLASSES[k % len(RT_CLASSES)], RT_RELAX[(k // len(RT_CLASSES) + k) % len(RT_RELAX)]
+            cls, rel = RT_CLASSES[k % len(RT_CLASSES)], RT_RELAX[(k // len(RT_CLASSES)) % len(RT_RELAX)]
             out.append(("p%d" % len(out), "rt_%s_%s" % (cls, rel), "pcorder_rt", "pcrt %s %s %s" % (cls, rel, fmt_crs(n3, n3, sh3)),
                         "pcrt %s %s %s" % (cls, rel, fmt_crs(n3, n3, rows3)), dict(n=n3)))
     return out
